@@ -164,6 +164,32 @@ def check_lookup(cfg, prios, order, kinds, lazy=(), failing=(), imported=(1, 2),
     return got == want
 
 
+def check_stack_program(cfg, prios, program, kinds):
+    """with-blocks entered and left in LIFO order, the same backend possibly entered again around another one
+    ('with A: with B: with A: ...'): after every prefix of the program a lookup without backend= must give the
+    innermost backend still active, or follow the tensor types when no block is active."""
+    st, objs = build(cfg, prios, list(range(len(CONFIGS[cfg]))))
+    stack = []
+    for step, name in program:
+        b = st._get(name, [])
+        if step == "enter":
+            st = st.enter(b)
+            stack.append(name)
+        else:
+            st = st.exit(b)
+            assert stack and stack[-1] == name, "harness: programs are LIFO"
+            stack.pop()
+        st, got = step_lookup(st, kinds)
+        want = spec(cfg, prios, kinds, None, tuple(stack))
+        if got != want:
+            return False
+    return True
+
+
+def step_lookup(st, kinds):
+    return step(st, None, tensors_of(kinds))
+
+
 def check_precedence(cfg, prios, order, kinds, arg_kind, stack_names, lazy=(), failing=(), imported=(1, 2)):
     st, objs = build(cfg, prios, order, lazy, failing, imported)
     # realise lazily registered backends the way a first lookup by name would
